@@ -21,6 +21,8 @@ def pairs(d):
 
 
 def ir_export(l):
+    if not isinstance(l, list):
+        return l
     out = []
     for e in l:
         if isinstance(e, str):
@@ -34,6 +36,8 @@ def ir_export(l):
 
 
 def ir_task(t):
+    if not isinstance(t, dict):
+        return t
     t = dict(t)
     if isinstance(t.get("export"), list):
         t["export"] = ir_export(t["export"])
@@ -41,6 +45,8 @@ def ir_task(t):
 
 
 def ir_rule(r):
+    if not isinstance(r, dict):
+        return r
     r = dict(r)
     if isinstance(r.get("export"), list):
         r["export"] = ir_export(r["export"])
@@ -52,6 +58,8 @@ def ir_entries(l):
 
 
 def ir_context(c):
+    if not isinstance(c, dict):
+        return c
     c = dict(c)
     if isinstance(c.get("env"), dict):
         c["env"] = pairs(c["env"])
@@ -65,6 +73,8 @@ def ir_context(c):
 
 
 def ir_module(m):
+    if not isinstance(m, dict):
+        return m
     m = dict(m)
     for k in ("depends", "selects", "sources"):
         if isinstance(m.get(k), list):
@@ -77,6 +87,8 @@ def ir_module(m):
 
 
 def ir_doc(doc):
+    if not isinstance(doc, dict):
+        return doc
     d = dict(doc)
     for k in ("contexts", "builders"):
         if isinstance(d.get(k), list):
